@@ -212,6 +212,15 @@ func Deal(s *RefScheme, seed uint64, n, t int) *Dealt {
 	return &Dealt{Master: secret, Shares: pri.Shares(n), Commits: commits}
 }
 
+// Redeal shares the same secret again with a fresh polynomial of threshold t.
+func Redeal(s *RefScheme, seed uint64, n, t int, secret kyber.Scalar) *Dealt {
+	str := newSeededStream(seed)
+	pri := share.NewPriPoly(s.KeyGroup, t, secret, str)
+	pub := pri.Commit(s.KeyGroup.Point().Base())
+	_, commits := pub.Info()
+	return &Dealt{Master: secret, Shares: pri.Shares(n), Commits: commits}
+}
+
 // seededStream is a deterministic cipher.Stream (SHA-256 in counter mode).
 type seededStream struct {
 	seed uint64
